@@ -552,6 +552,13 @@ MUST_RUN = [
     {"source": "from_pandas", "chain": "rolling2", "sel": {"kind": "get_partition", "P": [2]}},
     {"source": "from_pandas", "chain": "cumsum", "sel": {"kind": "partitions", "P": [2]}},
     {"source": "from_pandas", "chain": "shift1", "sel": {"kind": "to_delayed_sel", "P": [2, 1]}},
+    # selections above an operation they cannot be pushed through, over a multi-file parquet read that the tune stage
+    # would fuse into fewer partitions (D86; D70 for head over k partitions)
+    {"source": "read_parquet_div", "chain": "cumsum", "sel": {"kind": "partitions", "P": [5, 0, 1]}},
+    {"source": "read_parquet_div", "chain": "diff1", "sel": {"kind": "partitions", "P": [1, 1, 0]}},
+    {"source": "read_parquet_div", "chain": "shift1", "sel": {"kind": "to_delayed_sel", "P": [1, 2, 3, 4, 5]}},
+    {"source": "read_parquet_div", "chain": "cumsum", "sel": {"kind": "partitions", "P": [0, 0]}},
+    {"source": "read_parquet", "chain": "col_a", "sel": {"kind": "head", "n": 2, "k": 6}},
     # staged task shuffle that increases the partition count, selection that is not a prefix
     {"source": "from_pandas", "chain": "shuffle_tasks_up_mb2", "sel": {"kind": "partitions", "P": [2, 3, 4, 5, 6]}},
     {"source": "from_pandas", "chain": "shuffle_tasks_up_mb2", "sel": {"kind": "partitions", "P": [7, 0, 3, 1]}},
